@@ -192,6 +192,14 @@ func (s *stream) corruptFramed(pick int, mask byte, tiny int) bool {
 		return false
 	}
 	f := frames[pick%len(frames)]
+	if tiny >= 100 {
+		// the message cut down to its first tiny-100 payload bytes, with a matching length field
+		keep := min(tiny-100, f.end-f.payload)
+		n := keep + 4
+		s.inflight[f.start+1], s.inflight[f.start+2], s.inflight[f.start+3], s.inflight[f.start+4] = byte(n>>24), byte(n>>16), byte(n>>8), byte(n)
+		s.inflight = append(s.inflight[:f.payload+keep], s.inflight[f.end:]...)
+		return true
+	}
 	if tiny >= 0 {
 		s.inflight[f.start+1], s.inflight[f.start+2], s.inflight[f.start+3], s.inflight[f.start+4] = 0, 0, 0, byte(tiny%4)
 		return true
@@ -242,6 +250,9 @@ func (s *stream) corruptFramedMy(pick int, mask byte, tiny int) bool {
 		return false
 	}
 	f := frames[pick%len(frames)]
+	if tiny >= 100 {
+		tiny -= 100
+	}
 	if tiny >= 0 {
 		keep := min(tiny, f.end-f.payload)
 		s.inflight[f.start], s.inflight[f.start+1], s.inflight[f.start+2] = byte(keep), 0, 0
